@@ -1457,7 +1457,7 @@ def gen_unmodelled(r, n):
                   "rmsd_perm", "lincomb_coordNum", "lincomb_selfCoordNum", "distanceZ2_period",
                   "ev_forceNoPBC", "ev_period", "ev_distanceVec_coeff", "ev_rmsd_exp", "ev_dihedral_coeff", "ev_distancePairs_coeff",
                   "gspathCV", "gzpathCV", "aspathCV", "azpathCV", "gspath", "gzpath", "aspath", "azpath", "scripted_vsum", "lincomb_distanceVec",
-                  "meta_nogrid_restart", "cell_meta_nogrid_restart", "opes_frozen_restart", "abmd_restart", "antipodal_distanceDir"]
+                  "meta_nogrid_restart", "cell_meta_nogrid_restart", "opes_frozen_restart", "abmd_restart", "antipodal_distanceDir", "ev_badconfig"]
     names = names + cell_names
     only = os.environ.get("C01_ONLY")          # debugging aid: restrict the sweep to kinds containing this text
     if only:
@@ -1482,6 +1482,7 @@ def gen_unmodelled(r, n):
         script = None
         files = None
         exact = None
+        script_error_ok = False
         touched = sorted(set(ids + oth2))
         fitopts = "centerToReference on\n      rotateToReference on\n      refPositions %s" % refpos_str(r, 4)
         if name == "rot_distance":
@@ -1720,6 +1721,20 @@ def gen_unmodelled(r, n):
             conf = ("colvar {\n  name v0\n  linearCombination {\n    distanceVec {\n      name a\n      componentCoeff 2.0\n      group1 {\n        atomNumbers %s\n      }\n      group2 {\n        atomNumbers %s\n      }\n    }\n"
                     "    distanceVec {\n      name b\n      componentCoeff -0.5\n      group1 {\n        atomNumbers %s\n      }\n      group2 {\n        atomNumbers %s\n      }\n    }\n  }\n}\n"
                     "harmonic {\n  colvars v0\n  centers (1.0, 0.5, -0.5)\n  forceConstant 2.0\n}" % (ids_str(ids[:2]), ids_str(oth2), ids_str(ids[2:]), ids_str(oth2[:1])))
+        elif name == "ev_badconfig":
+            # a configuration string rejected in the middle of a session (after the module, the variable's atoms and, for a
+            # bias, its name counters were touched); the session goes on: forces are still minus the gradient of the energy
+            touched = sorted(set(ids[:2] + oth2))
+            conf = ("colvar {\n  name v0\n  distance {\n    group1 {\n      atomNumbers %s\n    }\n    group2 {\n      atomNumbers %s\n    }\n  }\n}\n%s\nharmonicWalls {\n  colvars v0\n  upperWalls 1.0\n  upperWallConstant 0.5\n}"
+                    % (ids_str(ids[:2]), ids_str(oth2), harm))
+            bad = r.choice(["harmonic { colvars nosuchvar centers 0.0 forceConstant 1.0 }",
+                            "harmonic { colvars v0 centers 1.0 2.0 forceConstant 1.0 }",
+                            "colvar { name v1 distance { group1 { atomNumbers %d } } }" % (ids[2] + 1),
+                            "colvar { name v0 distance { group1 { atomNumbers 1 } group2 { atomNumbers 2 } } }",
+                            "metadynamics { colvars v0 hillWeight 1.0 }",
+                            "harmonic { colvars v0 centers 1.0 forceConstant 1.0 nosuchkeyword 3 }"])
+            script = ["scriptu cv|config|" + bad]
+            script_error_ok = True
         elif name == "antipodal_distanceDir":
             # a unit-vector variable with a restraint centred EXACTLY opposite (cut locus of the geodesic distance): the
             # energy is finite there; whatever force is applied must be finite too
@@ -1767,6 +1782,8 @@ def gen_unmodelled(r, n):
             c["restart"] = {"raw_config": confB, "fmt": r.choice(["text", "binary", "textstr", "binarybuf"])}
         if script:
             c["script"] = script
+            if script_error_ok:
+                c["script_error_ok"] = True
         if files:
             c["files"] = files
         if wrap:
@@ -2071,7 +2088,7 @@ def check(run):
     # ---- finite-difference sweep over configurations the model does not cover (a few per kind in the quick tier)
     if True:
         ur = V.rng("C01-unmodelled")
-        ucases = gen_unmodelled(ur, 210 if quick else 6000)
+        ucases = gen_unmodelled(ur, 213 if quick else 6000)
         ures = run_vsim(vsim, ucases)
         for case, res in zip(ucases, ures):
             name = case["name"]
@@ -2082,9 +2099,11 @@ def check(run):
             if "err=ok" not in res["config"]:
                 run.dist("unmodelled-config-rejected:" + name)
                 continue
-            if any("err=ok" not in ln for ln in res.get("script", [])):
+            if any("err=ok" not in ln for ln in res.get("script", [])) and not case.get("script_error_ok"):
                 run.dist("unmodelled-script-rejected:" + name)
                 continue
+            if case.get("script_error_ok"):
+                run.dist("unmodelled:%s:%s" % (name, "rejected" if any("err=ok" not in ln for ln in res.get("script", [])) else "accepted"))
             if not res.get("done"):
                 run.violation("crash:" + name, "the engine simulator died on an accepted configuration (%s)" % name,
                               {"kind": "scenario", "scenario": scenario(case, "0")})
